@@ -26,7 +26,8 @@ STAGES = {
     "C06": [S("e_seq", "asu", 40000, 400000)],
     "C09": [S("e_seq", "asu", 40000, 400000), S("e_tbb", "asu", 15000, 150000)],
     "C15": [S("e_seq", "asu", 40000, 400000)],
-    "C03": [S("e_tbb", "asu", 18000, 300000), S("e_tbb", "tsan", 5000, 80000, gate=False)],
+    # isolate: call histories (several entry-point calls in one run) meet state that survives a call - every run in its own forked process
+    "C03": [S("e_tbb", "asu", 18000, 300000, isolate=True), S("e_tbb", "tsan", 5000, 80000, gate=False)],
     # isolate: every history runs in its own forked process (the knob keeps state in a function-local static)
     "C20": [S("e_knobreal", "asu", 3000, 30000, isolate=True), S("e_tbb", "asu", 10000, 120000, isolate=True), S("e_demo_mcb", "asu", 5000, 50000, isolate=True), S("e_demo_approx", "asu", 5000, 50000, isolate=True)],
     "C07": [S("e_seq", "asu", 4000, 40000, leakcheck=True), S("e_comp", "asu", 4000, 40000, leakcheck=True), S("e_tbb", "asu", 2000, 25000, leakcheck=True),
@@ -263,7 +264,7 @@ def replay_once(stage, path):
 class Unattributed(Exception):
     pass
 
-def minimise_and_confirm(prop, cls, stage, viol_file, replay_dir, prev_file=None):
+def minimise_and_confirm(prop, cls, stage, viol_file, replay_dir, prev_file=None, sibling_isolated=False):
     os.makedirs(replay_dir, exist_ok=True)
     tmp = os.path.join(os.path.dirname(viol_file), "min-%s-%s.json" % (prop, re.sub(r"[^A-Za-z0-9]+", "_", cls)))
     rc, out, err = run_tool(stage, ["--minimise", viol_file, "--class", cls, "--out", tmp, "--budget", os.environ.get("VERIF_MIN_BUDGET", "400")], timeout=1800)
@@ -275,6 +276,12 @@ def minimise_and_confirm(prop, cls, stage, viol_file, replay_dir, prev_file=None
         # static of the library that survives from run to run) cannot be shown by a single-run replay; a crash
         # caused by undefined behaviour (reading freed memory) need not repeat with the same symptom either
         raise Unattributed("%s flagged by %s/%s but not reproducible from a single run" % (cls, stage["engine"], stage["flavour"]))
+    if (rc != 0 or not os.path.exists(tmp)) and sibling_isolated and not stage.get("isolate"):
+        # this stage runs many cases per worker process while a sibling stage of the same engine runs every case in a
+        # process of its own: a verdict that depends on what the worker process ran before (state of the library that
+        # survives a call: statics, thread_local storage of pool threads) is decided by the isolated stage, whose
+        # call histories are part of the case
+        raise Unattributed("%s flagged by %s/%s (many cases per process) but not reproducible from a single run; the isolated stage decides" % (cls, stage["engine"], stage["flavour"]))
     if rc != 0 or not os.path.exists(tmp):
         # the violation did not reproduce in a child process: nondeterminism in the harness, never a report
         harness_error("violation %s of %s did not reproduce during minimisation (rc=%s): %s %s" % (cls, prop, rc, out[-500:], err[-1500:]))
@@ -344,7 +351,7 @@ def check_property(prop, tier, seed, stages=None, extra_cov=None, class_filter=N
         for v in vs[:4]:
             if not v[2]: harness_error("violation without a case file")
             try:
-                final, rep = minimise_and_confirm(prop, cls, v[1], v[2], os.environ.get("VERIF_REPLAYS", os.path.join(VERIF, "replays")), v[3].get("viol_file_prev"))
+                final, rep = minimise_and_confirm(prop, cls, v[1], v[2], os.environ.get("VERIF_REPLAYS", os.path.join(VERIF, "replays")), v[3].get("viol_file_prev"), sibling_isolated=any(s2.get("isolate") and s2["engine"] == v[1]["engine"] for s2 in stages))
             except Unattributed as ex:
                 unattributed.append(str(ex)); continue
             reported.append((cls, final, len(vs), rep)); done = True
